@@ -171,11 +171,13 @@ PLAN = {
     },
     "C18": {
         "rule": "attribute table: all 4032 field tuples x every constructor order (<=24) + closure under every single constructor application + invalid arguments; "
-                "dispatch_get_global_queue: identifiers x 67 flag values, full cross product; distinct = distinct attribute objects + distinct global queues",
-        "bounds": {"quick": "4032 tuples x all orders, 475776 closure steps, 66601 identifiers x 67 flags; behavioural check of concurrency/inactive on 12 representative queues",
-                   "thorough": "same attribute half; identifiers -2^24..2^24 plus boundary values x 67 flags (2.2e9 calls)"},
-        "assumptions": SEQ_ASSUME + ["queue-specific data / dispatch_assert_queue half of C18: see the dsched tasks when present"],
-        "parallel": {"quick": 1, "thorough": 1},
+                "dispatch_get_global_queue: identifiers x 67 flag values, full cross product; distinct = distinct attribute objects + distinct global queues. "
+                "Scheduled half (harness spec): 5 hierarchy shapes x every key placement x 7 submission paths x assertion modes (406 programs), each under every schedule with <=k preemptions; "
+                "dispatch_get_specific must return the nearest level's value, dispatch_assert_queue must hold for every queue of the chain and dispatch_assert_queue_not / dispatch_assert_queue on the wrong queue must trap",
+        "bounds": {"quick": "4032 tuples x all orders, 475776 closure steps, 66601 identifiers x 67 flags; behavioural check of concurrency/inactive on 12 representative queues; spec programs k<=1",
+                   "thorough": "same attribute half; identifiers -2^24..2^24 plus boundary values x 67 flags (2.2e9 calls); spec programs k<=2"},
+        "assumptions": SEQ_ASSUME + SC_ASSUME,
+        "parallel": {"quick": 3, "thorough": 3},
         "budget_s": {"quick": 150, "thorough": 900},
     },
     "C12": {
@@ -218,7 +220,8 @@ def tasks_for(pid, tier):
     if pid == "C13":
         return sx("data_c13")
     if pid == "C18":
-        return sx("attrs_c18")
+        sv = variants("spec")
+        return sx("attrs_c18") + ds("spec", 1 if q else 2, sv, jobs=2)
     if pid == "C20":
         return sx("transform_c20")
     if pid == "C09":
